@@ -191,6 +191,11 @@ func (c *FeeController) ComputeFeesToDistribute(
 				fees.Values,
 				actiontypes.RecipientAmount{Recipient: addr, Amount: sdk.NewCoins(fee)},
 			)
+			// The sum of the fees is bounded by the 256 bits of math.Int:
+			// refuse the action instead of letting Add panic.
+			if _, err := fees.Total.SafeAdd(feeAmount); err != nil {
+				return nil, core.ErrInvalidAttributes.Wrapf("total fees overflow: %s", err.Error())
+			}
 			fees.Total = fees.Total.Add(feeAmount)
 		}
 	}
